@@ -295,7 +295,7 @@ void conf_env_setup(const plan_t *p)
 {
     long v1 = plan_get(p, "env.v1len", 0), hl = plan_get(p, "env.homelen", 0), td = plan_get(p, "tmpdir", 0);
     clearenv(); setenv("LC_ALL", "C", 1);          /* (whatever an earlier pass or cycle set is gone) */
-    simfs_set_call_failures((int)plan_get(p, "fdopen.fail", 0), (int)plan_get(p, "fchmod.fail", 0));
+    simfs_set_call_failures((int)plan_get(p, "fdopen.fail", 0), (int)plan_get(p, "fchmod.fail", 0)); simfs_set_dir_grows((int)plan_get(p, "dir.grows", 0));
     setenv("HOME", "/home/u", 1); setenv("V1", "val-one", 1); setenv("EMPTY", "", 1); setenv("LONG_name_9", "L", 1);
     if (v1 > 0 && v1 <= 70000) { char *b = malloc((size_t)v1 + 1); memset(b, 'w', (size_t)v1); b[v1] = 0; setenv("V1", b, 1); free(b); probe_hit("long_env_value"); }
     if (hl > 0 && hl <= 70000) { char *b = malloc((size_t)hl + 3); b[0] = '/'; memset(b + 1, 'h', (size_t)hl); b[hl + 1] = 0; setenv("HOME", b, 1); free(b); probe_hit("long_home"); }
@@ -518,6 +518,7 @@ static void gen_c09(plan_t *p, rng_t *r)
     int nfiles = 1, open_depth = 0, target_depth = 0, nlines, include_chain = 0, nest_chunk;
     op_t *o;
     plan_knob(p, "alloc.fill", rng_range(r, 0, 4));
+    plan_knob(p, "alloc.zero", rng_chance(r, 1, 4)); plan_knob(p, "alloc.realloc0", rng_chance(r, 1, 4));      /* the two readings ISO C allows for a request of no bytes */
     plan_knob(p, "alloc.realloc", rng_range(r, 0, 2));
     plan_knob(p, "alloc.reuse", rng_range(r, 0, 2));
     plan_op(p, 0, "ctx", 2, (long)nreg, (long)rng_chance(r, 1, 5));
